@@ -841,6 +841,24 @@ func (e *Env) evalCall(n *ECall) (Val, error) {
 			return Val{}, fmt.Errorf("yielded(%d): no such map range statement", k)
 		}
 		return intVal(f.hs.read(e.heap, key)), nil
+	case "visited":
+		// visited(n, k): has the n-th map range statement of this function yielded key k already?
+		n := 0
+		fmt.Sscanf(args[0].Tm, "%d", &n)
+		key, ok := f.rangeVisKeys[n]
+		if !ok {
+			return Val{}, fmt.Errorf("visited(%d, k): no such map range statement", n)
+		}
+		return boolVal(app("select", f.hs.read(e.heap, key), args[1].Tm)), nil
+	case "ranged":
+		// ranged(n, k): was key k in the map when the n-th map range statement of this function started?
+		n := 0
+		fmt.Sscanf(args[0].Tm, "%d", &n)
+		d0, ok := f.rangeDom0[n]
+		if !ok {
+			return Val{}, fmt.Errorf("ranged(%d, k): no such map range statement", n)
+		}
+		return boolVal(app("select", d0, args[1].Tm)), nil
 	case "held":
 		// held(mutexAddrExpr): lock mode of a mutex
 		return intVal(f.lockHeld(e.heap, args[0].Tm)), nil
